@@ -77,11 +77,11 @@ package rib
 //@ loop 1 invariant dom(r.pendingEntries) == old(dom(r.pendingEntries)) && pendingWF(r)
 // C03: a removed entry releases its reference exactly once, at the group it pointed to, in the instance it named
 // (or its own); a removed group releases each of its member next-hops once; nothing else is released.
-//@ at "r.refdRIB(niR, originalv4.GetNextHopGroupNetworkInstance())" ghost cntBefore = nhgCount(refTarget(r, niR, originalv4.GetNextHopGroupNetworkInstance()), originalv4.GetNextHopGroup())
+//@ at "case originalv4 != nil:" ghost cntBefore = nhgCount(refTarget(r, niR, originalv4.GetNextHopGroupNetworkInstance()), originalv4.GetNextHopGroup())
 //@ assert at "aft = constants.IPv4" [v4-reference-released] refOK(r, originalv4.GetNextHopGroupNetworkInstance()) && nhgCount(refTarget(r, niR, originalv4.GetNextHopGroupNetworkInstance()), originalv4.GetNextHopGroup()) == dec64(cntBefore)
-//@ at "r.refdRIB(niR, originalv6.GetNextHopGroupNetworkInstance())" ghost cntBefore6 = nhgCount(refTarget(r, niR, originalv6.GetNextHopGroupNetworkInstance()), originalv6.GetNextHopGroup())
+//@ at "case originalv6 != nil:" ghost cntBefore6 = nhgCount(refTarget(r, niR, originalv6.GetNextHopGroupNetworkInstance()), originalv6.GetNextHopGroup())
 //@ assert at "aft = constants.IPv6" [v6-reference-released] refOK(r, originalv6.GetNextHopGroupNetworkInstance()) && nhgCount(refTarget(r, niR, originalv6.GetNextHopGroupNetworkInstance()), originalv6.GetNextHopGroup()) == dec64(cntBefore6)
-//@ at "r.refdRIB(niR, originalMPLS.GetNextHopGroupNetworkInstance())" ghost cntBeforeM = nhgCount(refTarget(r, niR, originalMPLS.GetNextHopGroupNetworkInstance()), originalMPLS.GetNextHopGroup())
+//@ at "case originalMPLS != nil:" ghost cntBeforeM = nhgCount(refTarget(r, niR, originalMPLS.GetNextHopGroupNetworkInstance()), originalMPLS.GetNextHopGroup())
 //@ assert at "aft = constants.MPLS" [mpls-reference-released] refOK(r, originalMPLS.GetNextHopGroupNetworkInstance()) && nhgCount(refTarget(r, niR, originalMPLS.GetNextHopGroupNetworkInstance()), originalMPLS.GetNextHopGroup()) == dec64(cntBeforeM)
 //@ loop 1 invariant[members-released] niR == r.niRIB[ni] && (forall k in visited :: k in dom(originalNHG.NextHop)) && (forall i: uint64 :: nhCount(niR, i) == ite(i in visited, dec64(old(nhCount(r.niRIB[ni], i))), old(nhCount(r.niRIB[ni], i))))
 //@ assert at "deleted from RIB successfully" [group-members-released] originalNHG != nil ==> (forall i: uint64 :: nhCount(niR, i) == ite(i in dom(originalNHG.NextHop), dec64(old(nhCount(r.niRIB[ni], i))), old(nhCount(r.niRIB[ni], i))))
